@@ -133,6 +133,8 @@ func (ec *executionContext) PopulateShipmentRequires(ctx context.Context, entity
 	}
 	entity.Crate.Box.Dims.Width = toInt(get(dims, "width"))
 	entity.Crate.Box.Dims.Height = toInt(get(dims, "height"))
+	entity.Crate.Weight = toInt(get(get(map[string]any(reps), "crate"), "weight"))
+	entity.CrateWeight = toInt(get(map[string]any(reps), "crateWeight"))
 	return nil
 }
 '''
